@@ -361,6 +361,12 @@ def run(ctx):
         m = M.get(ver)
         if doc["type"] == "bundle":
             slots = [(("objects",), None), (("id",), None), (("type",), None), (("objects", 0), None), (("objects", 0, "type"), None), (("spec_version",), None)]
+            # raw members are read before anything is cleaned (spec-version detection, dispatch): every such field of the first and
+            # of the last member
+            n_members = len(doc.get("objects") or [])
+            for i in sorted({0, n_members - 1}) if n_members else []:
+                for fld in ("spec_version", "type", "id", "extensions", "objects"):
+                    slots.append((("objects", i, fld), None))
             slots = [s for s in slots if s[0][0] in doc or len(s[0]) == 1]
             slots = [s for s in slots if not (len(s[0]) > 1 and "objects" not in doc)]
         else:
@@ -385,6 +391,8 @@ def run(ctx):
                 entry = "parse_observable"
             c = {"path": list(p), "op": "set" if not (len(p) == 1 and p[0] not in doc) else "add", "kind": "junk:%d" % j, "value": JUNK_VALUES[j]}
             if len(p) == 3 and p[0] == "extensions" and p[2] == "extension_type":
+                c["op"] = "add"
+            if len(p) == 3 and p[0] == "objects" and isinstance(p[1], int):
                 c["op"] = "add"
             case = {"ver": ver, "doc": doc, "corruptions": [c], "entry": entry}
             fails = check_case(case)
